@@ -352,6 +352,15 @@ func opGuess(r *rand.Rand, n int, tier string, seed int64) {
 				frames = append(frames, gfile{remote: p, local: p, rel: rel, imp: imp, class: stack.GoMod, pkg: "main", name: "M"})
 			}
 			if r.Intn(3) == 0 {
+				// a sub-directory holding a go.mod WITHOUT a module directive (empty / comment only): still part of this module;
+				// its file sorts before the module's other files ("aaa")
+				sub := root + "/aaa"
+				l.add(sub+"/go.mod", []string{"", "// placeholder\n", "go 1.21\n"}[r.Intn(3)])
+				f := fname()
+				l.add(sub+"/"+f, "package x\n")
+				frames = append(frames, gfile{remote: sub + "/" + f, local: sub + "/" + f, rel: "aaa/" + f, imp: modpath + "/aaa", class: stack.GoMod, pkg: "main", name: "E"})
+			}
+			if r.Intn(3) == 0 {
 				// a sibling directory whose name extends the module root's name: not part of the module
 				frames = append(frames, gfile{remote: root + "2/gen/" + fname(), class: stack.LocationUnknown, pkg: "gen", name: "S"})
 			}
@@ -385,6 +394,19 @@ func opGuess(r *rand.Rand, n int, tier string, seed int64) {
 			frames = append(frames, gfile{remote: "/nowhere/a.go", class: stack.LocationUnknown, pkg: "lost", name: "L"})
 		}
 		r.Shuffle(len(frames), func(a, b int) { frames[a], frames[b] = frames[b], frames[a] })
+		if r.Intn(4) == 0 {
+			// two frames that follow each other, in different files with the same last directory and file name:
+			// one resolved under a GOPATH, its twin under no root
+			for k, f := range frames {
+				if f.class == stack.GOPATH && f.local != "" && !f.ambiguous && f.expect == "" && strings.Count(f.rel, "/") >= 1 {
+					parts := strings.Split(f.rel, "/")
+					tail := strings.Join(parts[len(parts)-2:], "/")
+					twin := gfile{remote: "/elsewhere/tree/" + tail, class: stack.LocationUnknown, pkg: f.pkg, name: "T"}
+					frames = append(frames[:k+1], append([]gfile{twin}, frames[k+1:]...)...)
+					break
+				}
+			}
+		}
 		// a dump of 1..3 goroutines using the frames
 		var d []dGoroutine
 		var exp, cexp []string
